@@ -3,6 +3,7 @@ import Babble.Proofs.HGBlocks
 import Babble.Proofs.HGReceived
 import Babble.Proofs.DagVote
 import Babble.Proofs.HGLamport
+import Babble.Proofs.HGRoundReceived
 /-! # C04 — committed order extends causality; events are committed whole and once
     About the operational model `Babble.HG` (no quorum reasoning, any validator-set behaviour) and,
     for the two causality clauses, about the declarative model `Babble.Dag` (static validator set;
@@ -121,6 +122,15 @@ theorem lamport_respects_ancestry_operational (g : List Nat) (es : List Ev) (hnd
     rw [hb1] at hb2; injection hb2 with hb2; subst hb2
     rw [htb1] at htb2; injection htb2 with htb2; subst htb2
     exact ⟨ea, ec, ta, tc, ha, hc, hta, htc, by omega⟩
+
+/-- **an event is received strictly after the round it was created in** (operational model): an event
+    that has a round received has a round, and the round received is strictly larger — the search of
+    `DecideRoundReceived` starts at round + 1 and only moves upwards; with C02's increasing round
+    received per block, a block never contains an event of its own or a later round -/
+theorem round_received_above_round (g : List Nat) (es : List Ev) (hnd : (es.map (·.id)).Nodup)
+    (hfresh : ∀ e ∈ es, e.id ≠ "" ∧ e.round = none ∧ e.rr = none) (x : String) (e : Ev) (k : Int)
+    (hx : (runAll (St.init g) es).get x = some e) (hk : e.rr = some k) : ∃ r, e.round = some r ∧ r < k :=
+  HG.round_received_above_round g es hnd hfresh x e k hx hk
 
 /-- non-vacuity: two validators, a first event each, then an event of validator 0 on top of both -/
 example :
